@@ -175,3 +175,11 @@ Theorem C08_check_call_loop_is_translated : forall sigs args anys uanys unions,
   gen_loop sigs args anys uanys unions = loop sigs args anys uanys unions.
 Proof. exact gen_loop_is_model. Qed.
 Print Assumptions C08_check_call_loop_is_translated.
+
+Example C08_concrete_star_example :
+  resolve_concrete [ex_c1; ex_c2] callstar [[1]] = RTypes [1] /\
+  resolve_concrete [ex_c1; ex_c2] callstar [[0]] = RTypes [0] /\
+  resolve_concrete [ex_c1; ex_c2] callstar [[0; 1]] = RErr /\
+  forallb (sig_guard_b 0) (map (osig_of callstar) [ex_c1; ex_c2]) = false.
+Proof. exact concrete_star_example. Qed.
+Print Assumptions C08_concrete_star_example.
